@@ -249,7 +249,7 @@ theorem Safe.sub {G H : List Op} (sf : Safe G) (hs : Sub H G) : Safe H where
   final_fun b b' h h' := sf.final_fun b b' (h.mono hs) (h'.mono hs)
   no_final_between c p q h l h' := sf.no_final_between c p q (h.mono hs) (l.mono hs) (h'.mono hs)
   notar_fun b b' h h' := sf.notar_fun b b' (h.mono hs) (h'.mono hs)
-  notar_final b b' h h' := sf.notar_final b b' (h.mono hs) (h'.mono hs)
+  notar_direct b b' h h' := sf.notar_direct b b' (h.mono hs) (h'.mono hs)
   fin_not_skip s h h' := sf.fin_not_skip s (h.mono hs) (h'.mono hs)
 
 theorem run_snoc {t : Tracker} {ops : List Op} {t1 : Tracker} {evs : List Event} {op : Op}
@@ -389,7 +389,7 @@ theorem slotOK_congr {H H' : List Op} (hs : Sub H H') (hs' : Sub H' H) {s : Nat}
     cases x with
     | notarized h => exact ⟨ok.1.mono hs', fun a => ok.2.1 (a.mono hs), fun h a => ok.2.2 h (a.mono hs)⟩
     | finalPending => exact ⟨ok.1.mono hs', fun h a => ok.2.1 h (a.mono hs), fun h a => ok.2.2 h (a.mono hs)⟩
-    | finalized h => exact Final.mono hs' ok
+    | finalized h => exact Direct.mono hs' ok
     | implFinalized h => exact Final.mono hs' ok
     | implSkipped => exact Skip.mono hs' ok
 
